@@ -140,7 +140,7 @@ def shard_fn(shard, nshards, seed, tier, exe, ndocs, nenum):
             plan.append(("r", "1", k, EIO, -1))
         add(cmds, plan)
         sh.count("enumerated_single_error_positions", len(text) + 3)
-    results, crashes = core.run_script(exe, cases, tag="c20")
+    results, crashes = core.run_script(exe, cases, tag="c20", env=core.ambient_env(sh, shard))
     cmdmap = dict(cases)
     for cr in crashes:
         kind, frame = cr.summary()
